@@ -5,7 +5,7 @@
 
 use std::collections::BTreeMap;
 
-use verif_core::{hex, hex4, json, Rng, Value};
+use verif_core::{hex4, json, Rng, Value};
 
 use crate::store::CallKind;
 
@@ -1172,8 +1172,4 @@ pub fn reference_root(txs: &[Tx]) -> H {
     }
     // BTreeMap iteration is already sorted by request id = MSB-first bit order.
     sub(0, &leaves)
-}
-
-pub fn hx(h: &H) -> String {
-    hex(h)
 }
